@@ -115,18 +115,19 @@ def run_cases(run, cases, label, use_oracle=True):
                             break
                 late_variant = False
                 if norm(ref.log) != norm(r["calls"]) and not known_variant:
-                    for lk in ((True, None), (False, True)):
+                    for lk in ((True, None, False), (False, True, False), (False, False, True)):
                         if lk[0] and c["opts"].get("parserfns", True):
                             continue
                         for kl, sw in ((False, False), (True, False), (False, True), (True, True)):
                             rk = G.Ref(lib_for_ref, kludge=kl, trim_first=False, switch_default_wins=sw, opts=c["opts"],
-                                       leak=lk[0], resplit=lk[1])
+                                       leak=lk[0], resplit=lk[1], switch_link_eq=lk[2])
                             rk.ev(c["page_ast"], None)
                             rk.log = [[x[0], x[1], [[k, uq(rk.finish(v) if isinstance(v, str) else v)] for k, v in x[2]]]
                                       + [uq(rk.finish(y) if isinstance(y, str) else y) for y in x[3:]] for x in rk.log]
                             if not rk.unsupported and norm(rk.log) == norm(r["calls"]):
-                                late_variant = "c13:unexpanded-parser-function-args-expanded-late" if lk[0] else \
-                                    "c04:substituted-value-with-equals-is-resplit"
+                                late_variant = "c13:unexpanded-parser-function-args-expanded-late" if lk[0] else (
+                                    "c04:switch-case-split-at-equals-inside-link" if lk[2] else
+                                    "c04:substituted-value-with-equals-is-resplit")
                                 break
                         if late_variant:
                             break
@@ -157,16 +158,17 @@ def run_cases(run, cases, label, use_oracle=True):
                         break
                 leak_sig = None
                 if not sig:
-                    for lk in ((True, None), (False, True)):
+                    for lk in ((True, None, False), (False, True, False), (False, False, True)):
                         if lk[0] and c["opts"].get("parserfns", True):
                             continue
                         for kl, sw in ((False, False), (True, False), (False, True), (True, True)):
                             r3 = G.Ref(lib_for_ref, kludge=kl, trim_first=False, switch_default_wins=sw, opts=c["opts"],
-                                       leak=lk[0], resplit=lk[1])
+                                       leak=lk[0], resplit=lk[1], switch_link_eq=lk[2])
                             o3 = unquote_marks(r3.finish(r3.ev(c["page_ast"], None)), r["out"])
                             if not r3.unsupported and o3 == r["out"]:
-                                leak_sig = "c13:unexpanded-parser-function-args-expanded-late" if lk[0] else \
-                                    "c04:substituted-value-with-equals-is-resplit"
+                                leak_sig = "c13:unexpanded-parser-function-args-expanded-late" if lk[0] else (
+                                    "c04:switch-case-split-at-equals-inside-link" if lk[2] else
+                                    "c04:substituted-value-with-equals-is-resplit")
                                 break
                         if leak_sig:
                             break
